@@ -39,7 +39,7 @@ typedef struct vh_opnd {
 
 typedef struct vh_ev {
   const char *op;
-  char params[1 << 16];
+  char params[1 << 20];   /* permutations of very wide matrices are logged in full */
   int plen;
   vh_opnd_t o[VH_MAXOP];
   int no;
